@@ -178,6 +178,14 @@ func ScanSnapshot(in io.Reader, prefix io.Writer, opts *Opts) (*Snapshot, []byte
 			verifBefore := s.state
 			l, err1 := s.scan(d)
 			verifTrace(in, verifBefore, s.state, d, l, err1)
+			if len(s.release) != 0 {
+				_, err2 := prefix.Write(s.release)
+				s.release = s.release[:0]
+				if err2 != nil && (err == nil || err == io.EOF) {
+					err = err2
+					break
+				}
+			}
 			if err1 != nil && (err == nil || err == io.EOF) {
 				err = err1
 			}
@@ -454,6 +462,12 @@ type scanningState struct {
 	state          state
 	prefix         []byte
 	goroutineIndex int
+	// withheld is the race detector header lines consumed so far, kept until
+	// it is known that a race report really follows.
+	withheld []byte
+	// release is withheld lines that turned out not to start a race report;
+	// the caller outputs them back before handling the current line.
+	release []byte
 }
 
 func isFramesElidedLine(line []byte) bool {
@@ -568,6 +582,7 @@ func (s *scanningState) scan(line []byte) (bool, error) {
 		// continued by a race report, it ends there.
 		if s.state == looking && bytes.Equal(trimmed, raceHeaderFooter) {
 			s.state = gotRaceHeader1
+			s.withheld = append(s.withheld[:0], line...)
 			return true, nil
 		}
 		if s.state != looking {
@@ -676,16 +691,13 @@ func (s *scanningState) scan(line []byte) (bool, error) {
 
 	case gotRaceHeader1:
 		if bytes.Equal(trimmed, raceHeader) {
-			// TODO(maruel): We should buffer it in case the next line is not a
-			// WARNING so we can output it back.
 			s.state = gotRaceHeader2
+			s.withheld = append(s.withheld, line...)
 			return true, nil
 		}
-		// TODO(maruel): While this shouldn't error out, it should still force the
-		// output of raceHeaderFooter.
-		s.state = looking
-		s.prefix = nil
-		return false, nil
+		// It was not a race report: output the separator back and handle this
+		// line like any other.
+		return s.notRace(line)
 
 	case gotRaceHeader2:
 		if match := reRaceOperationHeader.FindSubmatch(trimmed); match != nil {
@@ -706,7 +718,9 @@ func (s *scanningState) scan(line []byte) (bool, error) {
 			s.state = gotRaceOperationHeader
 			return true, nil
 		}
-		return false, fmt.Errorf("expected race condition, got: %q", bytes.TrimSpace(trimmed))
+		// It was not a race report: output the two header lines back and handle
+		// this line like any other.
+		return s.notRace(line)
 
 	case gotRaceOperationHeader:
 		c := Call{}
@@ -826,6 +840,16 @@ func (s *scanningState) scan(line []byte) (bool, error) {
 	default:
 		return false, errors.New("internal error")
 	}
+}
+
+// notRace goes back to looking for a stack trace after race detector header
+// lines that were not followed by a race report, releasing them.
+func (s *scanningState) notRace(line []byte) (bool, error) {
+	s.state = looking
+	s.prefix = nil
+	s.release = append(s.release, s.withheld...)
+	s.withheld = s.withheld[:0]
+	return s.scan(line)
 }
 
 // parseFunc only return an error if it also returns true.
